@@ -677,7 +677,25 @@ class Gen:
                     if isinstance(x, list):
                         return "(m %s)" % " ".join(eline(y) for y in x)
                     return "(i %s %s)" % (o_line(distinct[x][2]), o_line(distinct[x][3]))
-                go.append("m := optics.Morphism[%s, %s](%s)" % (S.name, T.name, ", ".join(ego(x) for x in seq)))
+                # half of the lists are passed the way a table-driven caller does: a slice spread into Morphism, another
+                # Morphism over the whole table first, then the morphism under test over a PREFIX of the same slice
+                # (the library must not have touched the caller's slice)
+                reuse = len(seq) >= 2 and rng.random() < 0.5
+                if reuse:
+                    kuse = rng.randrange(1, len(seq))
+                    go.append("tbl := []optics.Isomorphism[%s, %s]{%s}" % (S.name, T.name, ", ".join(ego(x) for x in seq)))
+                    go.append("_ = optics.Morphism[%s, %s](tbl...)" % (S.name, T.name))
+                    go.append("m := optics.Morphism[%s, %s](tbl[:%d]...)" % (S.name, T.name, kuse))
+                    seq = seq[:kuse]
+
+                    def flat(x):
+                        return [x] if isinstance(x, int) else ([] if x is None else [z for y in x for z in flat(y)])
+                    usedi = sorted(set(z for x in seq for z in flat(x)))
+                    distinct_used = [distinct[i] for i in usedi]
+                    nnil = sum(1 for x in seq if x is None)
+                else:
+                    go.append("m := optics.Morphism[%s, %s](%s)" % (S.name, T.name, ", ".join(ego(x) for x in seq)))
+                    distinct_used = distinct
                 line = "M " + " ".join(eline(x) for x in seq)
                 entries = seq
             snap = "%s(s)+\",\"+%s(t)" % (pr(S), pr(T))
@@ -687,7 +705,7 @@ class Gen:
             # the property: every target focus receives its source focus, nothing else changes;
             # the inverse restores the source foci (into s: everything; into s1: exactly the foci)
             t1, s3 = t0, s1
-            for a, b, oa, ob in distinct:
+            for a, b, oa, ob in (distinct if single else distinct_used):
                 (ps, ks), (pt, kt) = o_sem(oa), o_sem(ob)
                 x = getp(s0, ps)
                 t1 = setp(t1, pt, x + ks - kt if (ks or kt) else x)
@@ -695,7 +713,7 @@ class Gen:
             tt = tok(T, t1)
             exp = "%s,%s;%s,%s;%s,%s" % (tok(S, s0), tt, tok(S, s0), tt, tok(S, s3), tt)
             line += " | %s | %s | %s" % (tok(S, s0), tok(T, t0), tok(S, s1))
-            return dict(kind="I" if single else "M", entries=len(entries), distinct=len(distinct), nnil=nnil, nrep=nrep, nest=nest,
+            return dict(kind="I" if single else "M", entries=len(entries), distinct=len(distinct), nnil=nnil, nrep=nrep, nest=nest, reuse=(not single and reuse),
                         line=line, go=go, expect=exp)
         return None
 
@@ -957,6 +975,7 @@ def run(ctx):
                 ctx.hist("morphism_nil", s["nnil"])
                 ctx.hist("morphism_repeated", s["nrep"])
                 ctx.hist("morphism_nested", s["nest"])
+                ctx.hist("morphism_table_reused", "prefix of a spread slice" if s.get("reuse") else "literal arguments")
             else:
                 ctx.hist("map_nil", s["isnil"])
             if got != s["expect"]:
